@@ -40,6 +40,14 @@ fn render_err(e: &AisleConfError) -> String {
 /// to validate lean/CookModel/Side/AisleOrig.lean against an unrepaired tree. Never set by ./check.
 fn sfx() -> &'static str { if std::env::var_os("C11_ORIG").is_some() { "_orig" } else { "" } }
 
+/// stable signature of a panic: source file from `src/` on, message without numbers and without the quoted text
+fn psig(p: &str) -> String {
+    let s = panic_signature(p);
+    let s = match s.find("src/") { Some(k) => format!("panic:{}", &s[k..]), None => s };
+    let s = s.split('`').next().unwrap_or("").to_string();
+    s.chars().map(|c| if c.is_ascii_digit() { '#' } else { c }).collect::<String>().trim_end().to_string()
+}
+
 fn show(s: &str) -> String { format!("aisle file {:?}", s) }
 
 /// offset of a borrowed name inside the input, if it is a slice of it
@@ -121,7 +129,7 @@ fn oracle_ok(ctx: &mut Ctx, input: &str, c: &AisleConf) {
         Ok::<(String, String), String>((text, again))
     });
     let rt_reply = match rt {
-        Err(p) => { ctx.oracle_fail(desc.clone(), format!("write/re-parse panics: {p}"), panic_signature(&p)); "panic".to_string() }
+        Err(p) => { ctx.oracle_fail(desc.clone(), format!("write/re-parse panics: {p}"), psig(&p)); "panic".to_string() }
         Ok(Err(e)) => { ctx.oracle_fail(desc.clone(), format!("write fails: {e}"), "c11:write_error".into()); "write-error".to_string() }
         Ok(Ok((text, again))) => {
             if again != "same" { ctx.oracle_fail(desc.clone(), format!("written as {:?}, parsed again: {again}", text), "c11:roundtrip".into()); }
@@ -136,7 +144,7 @@ fn lookups(ctx: &mut Ctx, input: &str, c: &AisleConf, probes: &[&str], max_cases
     let desc = show(input);
     let info = match guarded(|| c.ingredients_info()) {
         Ok(i) => i,
-        Err(p) => { ctx.oracle_fail(desc, format!("ingredients_info panics: {p}"), panic_signature(&p)); return; }
+        Err(p) => { ctx.oracle_fail(desc, format!("ingredients_info panics: {p}"), psig(&p)); return; }
     };
     let mut total = 0usize;
     let mut sent = 0usize;
@@ -170,7 +178,7 @@ pub fn one(ctx: &mut Ctx, input: &str, max_lookup_cases: usize) {
     match r {
         Err(p) => {
             ctx.count("result:panic");
-            ctx.oracle_fail(desc.clone(), format!("parse panics: {p}"), panic_signature(&p));
+            ctx.oracle_fail(desc.clone(), format!("parse panics: {p}"), psig(&p));
             ctx.case(op, "panic".into(), true, desc);
         }
         Ok(Err(e)) => {
